@@ -1,7 +1,13 @@
 //! C05 random positioning programs in the abstract JSON shape of Gpos.tla (impl -> spec).
 //! Programs stay inside the fragment the specification models (see MC_Gpos!ProgWF and notes/C05.md):
-//! mark coverages list GDEF marks only, no non-zero yAdvance, cursive lookups ignore marks and are
-//! not combined with placement adjustments, MarkMark lookups filter exactly their Mark2Coverage.
+//! no non-zero yAdvance, cursive lookups ignore marks and are not combined with placement
+//! adjustments, MarkMark lookups filter exactly their Mark2Coverage.
+//!
+//! Every glyph has a ROLE (what the lookups use it for: base, ligature, mark, other) and a GDEF
+//! class (what the font says). They agree in half of the programs; in the others the font has no
+//! GDEF table, a GDEF without GlyphClassDef, or a GlyphClassDef that leaves some of the marks
+//! unclassified or calls them bases (the variant is a function of the program index, so every
+//! seed covers every variant for every kind of program).
 use rand::rngs::StdRng;
 use rand::seq::SliceRandom;
 use rand::{Rng, SeedableRng};
@@ -9,6 +15,11 @@ use serde_json::{json, Value};
 
 struct Uni {
     n: usize,
+    /// GDEF table variant: "full" | "noclassdef" | "absent"
+    tab: &'static str,
+    /// what the lookups use the glyph for (1 base, 2 ligature, 3 mark, 0 other)
+    role: Vec<i64>,
+    /// what the GlyphClassDef says (differs from `role` for declassified marks)
     cls: Vec<i64>,
     att: Vec<i64>,
     adv: Vec<i64>,
@@ -19,7 +30,14 @@ struct Uni {
     set0: Vec<i64>,
 }
 
-fn universe(r: &mut StdRng) -> Uni {
+impl Uni {
+    /// do GDEF's glyph classes say what the lookups assume?
+    fn plain(&self) -> bool {
+        self.tab == "full" && self.role == self.cls
+    }
+}
+
+fn universe(r: &mut StdRng, variant: usize) -> Uni {
     let n = r.gen_range(9..=13);
     let mut cls = vec![0i64; n];
     // 0 .notdef; then a shuffled assignment with at least 3 bases, 1 ligature, 3 marks, 1 unclassified
@@ -42,7 +60,21 @@ fn universe(r: &mut StdRng) -> Uni {
     let adv: Vec<i64> = (0..n)
         .map(|g| if cls[g] == 3 && zero_mark_adv { 0 } else { 100 + 53 * g as i64 + r.gen_range(0..40) })
         .collect();
-    Uni { n, bases: pick(1, &cls), ligs: pick(2, &cls), others: pick(0, &cls), marks, cls, att, adv, set0 }
+    let role = cls.clone();
+    let tab = match variant {
+        3 => "absent",
+        4 => "noclassdef",
+        _ => "full",
+    };
+    if variant == 5 {
+        // one or two of the marks are not marks for GDEF: unclassified, or classed as bases
+        let mut ms = marks.clone();
+        ms.shuffle(r);
+        for m in ms.iter().take(r.gen_range(1..=2)) {
+            cls[*m as usize] = if r.gen_bool(0.6) { 0 } else { 1 };
+        }
+    }
+    Uni { n, tab, bases: pick(1, &role), ligs: pick(2, &role), others: pick(0, &role), marks, role, cls, att, adv, set0 }
 }
 
 fn subset(r: &mut StdRng, from: &[i64], min: usize) -> Vec<i64> {
@@ -142,8 +174,8 @@ fn mark_records(r: &mut StdRng, marks: &[i64], nc: usize) -> Vec<Value> {
 }
 
 fn markbase_lookup(r: &mut StdRng, u: &Uni, alpha: &[i64]) -> Value {
-    let marks: Vec<i64> = alpha.iter().cloned().filter(|g| u.cls[*g as usize] == 3).collect();
-    let nonmarks: Vec<i64> = alpha.iter().cloned().filter(|g| u.cls[*g as usize] != 3).collect();
+    let marks: Vec<i64> = alpha.iter().cloned().filter(|g| u.role[*g as usize] == 3).collect();
+    let nonmarks: Vec<i64> = alpha.iter().cloned().filter(|g| u.role[*g as usize] != 3).collect();
     let nsub = if r.gen_bool(0.3) { 2 } else { 1 };
     let subs = (0..nsub)
         .map(|_| {
@@ -161,8 +193,8 @@ fn markbase_lookup(r: &mut StdRng, u: &Uni, alpha: &[i64]) -> Value {
 }
 
 fn marklig_lookup(r: &mut StdRng, u: &Uni, alpha: &[i64]) -> Value {
-    let marks: Vec<i64> = alpha.iter().cloned().filter(|g| u.cls[*g as usize] == 3).collect();
-    let ligs: Vec<i64> = alpha.iter().cloned().filter(|g| u.cls[*g as usize] == 2).collect();
+    let marks: Vec<i64> = alpha.iter().cloned().filter(|g| u.role[*g as usize] == 3).collect();
+    let ligs: Vec<i64> = alpha.iter().cloned().filter(|g| u.role[*g as usize] == 2).collect();
     let m = subset(r, &marks, 1);
     let l = subset(r, &ligs, 1);
     let nc = r.gen_range(1..=2usize);
@@ -181,9 +213,10 @@ fn marklig_lookup(r: &mut StdRng, u: &Uni, alpha: &[i64]) -> Value {
         "marks": mark_records(r, &m, nc), "ligs": lig_attach})])
 }
 
-/// MarkMark whose flag filters exactly the marks its Mark2Coverage lists.
+/// MarkMark whose flag filters exactly the marks its Mark2Coverage lists. Where GDEF does not
+/// class every mark as a mark a flag cannot filter them: flag 0 and every mark in Mark2Coverage.
 fn markmark_lookup(r: &mut StdRng, u: &Uni) -> Value {
-    let (fl, m2): ((i64, i64), Vec<i64>) = if r.gen_bool(0.5) {
+    let (fl, m2): ((i64, i64), Vec<i64>) = if !u.plain() || r.gen_bool(0.5) {
         ((0, -1), u.marks.clone())
     } else {
         let c = r.gen_range(1..=2i64);
@@ -200,7 +233,7 @@ fn markmark_lookup(r: &mut StdRng, u: &Uni) -> Value {
 }
 
 fn curs_lookup(r: &mut StdRng, u: &Uni, alpha: &[i64]) -> Value {
-    let nonmarks: Vec<i64> = alpha.iter().cloned().filter(|g| u.cls[*g as usize] != 3).collect();
+    let nonmarks: Vec<i64> = alpha.iter().cloned().filter(|g| u.role[*g as usize] != 3).collect();
     let gs = subset(r, &nonmarks, 2);
     let fit = r.gen_bool(0.5);
     let flat = r.gen_bool(0.5);
@@ -321,8 +354,14 @@ fn kern_table(r: &mut StdRng, alpha: &[i64]) -> Value {
                 }
             }
             pairs.sort();
-            // coverage: horizontal; sometimes vertical (ignored), override or minimum (not first)
-            let cov = if k == 0 { *[1i64, 1, 1, 0].choose(r).unwrap() } else { *[1i64, 1, 0, 9, 3].choose(r).unwrap() };
+            // coverage byte: 1 horizontal (0 = vertical), 2 minimum, 4 cross-stream, 8 override.
+            // Mostly plain horizontal; sometimes vertical, override or minimum (not first), and
+            // cross-stream / vertical variants of all of them (never override and minimum together)
+            let cov = if k == 0 {
+                *[1i64, 1, 1, 0, 5].choose(r).unwrap()
+            } else {
+                *[1i64, 1, 0, 9, 3, 5, 5, 13, 7, 4, 8, 12, 2].choose(r).unwrap()
+            };
             json!({"f": 0, "cov": cov, "pairs": pairs.iter().map(|p| json!([p.0, p.1, p.2])).collect::<Vec<Value>>()})
         })
         .collect();
@@ -330,7 +369,7 @@ fn kern_table(r: &mut StdRng, alpha: &[i64]) -> Value {
 }
 
 fn program(u: &Uni, tag: &str, script: &str, lookups: Vec<Value>, feat: Vec<usize>, kern: Value, gpos: bool) -> Value {
-    json!({"gdef": {"cls": u.cls, "att": u.att, "sets": [u.set0]}, "adv": u.adv, "tag": tag, "script": script,
+    json!({"gdef": {"tab": u.tab, "cls": u.cls, "att": u.att, "sets": [u.set0]}, "adv": u.adv, "tag": tag, "script": script,
            "lookups": lookups, "feat": feat, "kern": kern, "gpos": gpos})
 }
 
@@ -342,7 +381,7 @@ fn strings(r: &mut StdRng, alpha: &[i64], n: usize, maxlen: usize, u: &Uni, lig_
                 (0..len)
                     .map(|_| {
                         let g = *alpha.choose(r).unwrap();
-                        let lc = if lig_comps && u.cls[g as usize] == 3 { r.gen_range(0..=3) } else { 0 };
+                        let lc = if lig_comps && u.role[g as usize] == 3 { r.gen_range(0..=3) } else { 0 };
                         json!({"g": g, "lc": lc, "lig": false})
                     })
                     .collect(),
@@ -358,7 +397,9 @@ pub fn programs(seed: u64, n_prog: usize, n_str: usize) -> Vec<(String, Value, V
     let mut out = Vec::new();
     for pi in 0..n_prog {
         let r = &mut r;
-        let u = universe(r);
+        // GDEF variant: 0-2 glyph classes as the lookups assume, 3 no GDEF, 4 no GlyphClassDef,
+        // 5 some marks unclassified / classed as bases; constant over one round of all kinds
+        let u = universe(r, (pi / kinds.len()) % 6);
         let kind = kinds[pi % kinds.len()];
         // strings over a small sub-alphabet so that rules fire often
         let mut alpha: Vec<i64> = Vec::new();
